@@ -14,6 +14,7 @@ mod c03;
 mod c04;
 mod c05;
 mod c06;
+mod c07;
 mod c08;
 mod c10;
 mod c12;
@@ -39,6 +40,7 @@ fn main() {
         "C04" => { c04::cases(&mut ctx); c04::preds(&mut ctx); }
         "C05" => { c05::cases(&mut ctx); c05::preds(&mut ctx); }
         "C06" => { c06::cases(&mut ctx); c06::preds(&mut ctx); }
+        "C07" => { c07::cases(&mut ctx); c07::preds(&mut ctx); }
         "C08" => { c08::cases(&mut ctx); c08::preds(&mut ctx); }
         "C10" => { c10::cases(&mut ctx); c10::preds(&mut ctx); }
         "C12" => { c12::cases(&mut ctx); c12::preds(&mut ctx); }
